@@ -214,6 +214,9 @@ class Verdict:
         self.pid = pid
         self.violations = []   # (key, description, replay_path)
         self.known_hit = {}
+        import glob
+        for old in glob.glob(os.path.join(outdir(pid), "violation-*.json")):
+            os.remove(old)
 
     def violation(self, key, desc, replay_obj):
         """key: stable identifier of the failing input/history class (used to match known findings)."""
